@@ -12,7 +12,7 @@ def sh(cmd, **kw):
 def main():
     d = os.path.abspath(sys.argv[1])
     meta = json.load(open(os.path.join(d, "meta.json")))
-    props = sys.argv[2:] or [meta["property"]]
+    props = sys.argv[2:] or meta.get("evaluate_with") or [meta["property"]]
     wt = tempfile.mkdtemp(prefix="verif-wt-", dir="/tmp")
     os.rmdir(wt)
     r = sh(f"git -C /repo worktree add -q --detach {wt} HEAD")
